@@ -49,6 +49,7 @@ class ObjModel(object):
                 raise AnalysisError("E5.model", "no minor_version assignment found in parse_vector")
             self.space.add("minor", tuple(minors))
         self.ev = Evaluator(ctx, self.space)
+        self.ev.regex_on_tables = True  # a regex applied to constant / table strings (value names) is evaluated on them
         self.st = self.ev.new_state()
         if pins:
             for s, vals in pins.items():
